@@ -225,7 +225,7 @@ pub fn run_check(prop: &str, tier: &str) -> i32 {
             schedprops::run_programs(concprogs::warm_programs(false), if thorough { 3 } else { 2 }, 4000, budget * 0.25, &schedprops::judge_linearizable, None, &["C16", "C07", "C08", "C14"], &mut report);
         }
         "C11" => {
-            let s = pick(&["mem-ttl", "ts-mem", "disk-v1-ttl", "disk-v3-ttl", "focus-v2-ttl", "focus-v3-ttl-nocache", "focus-v3-ttl"], thorough);
+            let s = pick(&["mem-ttl", "mem-wide", "ts-mem", "disk-wide-v3", "disk-v1-ttl", "disk-v3-ttl", "focus-v2-ttl", "focus-v3-ttl-nocache", "focus-v3-ttl"], thorough);
             seq_check(prop, tier, s, &["C11", "C01", "C14"], budget * 0.5, &mut report);
             // sweeper vs writers renewing / replacing the key, all interleavings within the bound
             let bound = if thorough { 3 } else { 2 };
@@ -236,7 +236,7 @@ pub fn run_check(prop: &str, tier: &str) -> i32 {
             crashprops::crash_check(prop, cs, &["C11", "C02", "C03"], plan, budget * 0.25, &mut report);
         }
         "C12" => {
-            let s = pick(&["ts-mem", "ts-mem-limit", "ts-disk-v1", "ts-disk-v2", "ts-disk-v3", "mem-limit", "mem-core", "disk-limit"], thorough);
+            let s = pick(&["ts-mem", "mem-wide", "ts-mem-limit", "disk-wide-v2", "ts-disk-v1", "ts-disk-v2", "ts-disk-v3", "mem-limit", "mem-core", "disk-limit"], thorough);
             seq_check(prop, tier, s, &["C12"], budget * 0.6, &mut report);
             // automatic timestamps after *crash* recovery: every recovered key accepts an automatic write
             let cs: Vec<Suite> = suites::crash_suites(thorough).into_iter().filter(|s| ["crash-core-v3", "crash-core-v2", "crash-edge-v1", "crash-ttl-v3"].contains(&s.name.as_str())).collect();
@@ -244,7 +244,7 @@ pub fn run_check(prop: &str, tier: &str) -> i32 {
             crashprops::crash_check(prop, cs, &["C12"], plan, budget * 0.4, &mut report);
         }
         "C13" => {
-            let s = pick(&["mem-core", "mem-limit", "mem-ttl", "ts-mem-limit", "disk-limit", "focus-v3", "focus-v3-ttl", "edge-v1", "disk-v2"], thorough);
+            let s = pick(&["mem-core", "mem-wide", "mem-limit", "mem-ttl", "ts-mem-limit", "disk-limit", "focus-v3", "focus-v3-ttl", "edge-v1", "disk-v2"], thorough);
             seq_check(prop, tier, s, &["C13"], budget * 0.6, &mut report);
             // accounting right after recovery from every crash image
             let cs: Vec<Suite> = suites::crash_suites(thorough).into_iter().filter(|s| ["crash-core-v3", "crash-small-v3", "crash-ttl-v3"].contains(&s.name.as_str())).collect();
